@@ -756,3 +756,63 @@ def r9_14(rep):
                   "this early exit depends on `%s`, i.e. on which declarations were parsed before: a later declaration of the same function "
                   "(the one inside the allowlisted file) gets no item" % ", ".join(bad), b.loc(r))
     rep.need(n >= 5, "early `return Err(..)` exits of Function::parse")
+
+
+# (impl, substring of the atom, polarity, reason) — tests on the path to an edge that are NOT "this is the kind" / "the target exists"
+TRACE_EDGE_CONDITIONS = [
+    ("Type", "Option::<T>::is_some_and(param:self.ir::ty::Type::name", False,
+     "compiler builtins (`__builtin_va_list`, `__va_list_tag`, ..) are spelled by name and never followed"),
+    ("Item", "Type::should_be_traced_unconditionally", None, "delegation to the type's own Trace: R9.3 / R10.x decide the opaque cut"),
+    ("Item", "Item::is_opaque", None, "same disjunction"),
+]
+
+
+@RULES.rule("R9.15", "an edge exists whenever its target does: nothing about the item's VALUE decides whether a Trace impl emits it", floor=31)
+def r9_15(rep):
+    """Trace is the dependency relation every consumer shares (allowlist closure, derive analyses, template usage).  A site may sit
+    under the dispatch on the item's own kind and under `if let Some(target)`; any other test makes the relation depend on data that
+    says nothing about what the item refers to.  Seeded change: `ItemKind::Var` emitted its `VarType` edge only for variables without
+    an evaluated initialiser — `const size_type N = 4;` was emitted as `pub const N: size_type = 4` with `size_type` left out of the
+    allowlisted output (E0412).  Frozen exceptions: TRACE_EDGE_CONDITIONS."""
+    import qq
+    prog = rep.prog
+    n = 0
+    for p, b in sorted(prog.bodies.items()):
+        if not (b.fact.get("impl_trait") or "").endswith("traversal::Trace"):
+            continue
+        who = (b.fact.get("impl_self") or "").split("::")[-1]
+        per = {}
+        sites = b.calls(lambda x: x["k"] == "MCall" and x["name"] in ("visit", "visit_kind", "trace"))
+        for c in sites:
+            n += 1
+            edge = "delegate" if c["name"] == "trace" else (b.canon(c["args"][-1], 2).split("::")[-1] if c["name"] == "visit_kind" else "visit")
+            k = per.get(edge, 0)
+            per[edge] = k + 1
+            key = "edge-whenever-target-exists:%s::%s%s" % (who, edge, "#%d" % k if k else "")
+            bad = []
+            for a, pol, g in qq.guard_atoms(b, c):
+                if a.startswith("arm:") and "param:self" in a:
+                    continue            # dispatch on the item's own kind / variant
+                if a.startswith("let ") and pol and "Some(" in a.split("=")[0] and "param:self" in a.split("=", 1)[1]:
+                    continue            # the optional target exists
+                if a.startswith("let ") and pol and "Some(" in a.split("=")[0] and "match(param:self" in a.split("=", 1)[1]:
+                    continue
+                if any(w == who and sub in a and (wpol is None or wpol == pol) for w, sub, wpol, _ in TRACE_EDGE_CONDITIONS):
+                    continue
+                bad.append(a[:110] if pol else "!(%s)" % a[:110])
+            rep.check(not bad, key, "under kind dispatch / target-exists only" if not bad else
+                      "this edge is only emitted when `%s`: consumers of the dependency relation (allowlist closure, derive and template "
+                      "analyses) lose the target for every other item of the kind" % "; ".join(bad)[:260], b.loc(c))
+    rep.need(n >= 22, "visit / visit_kind / delegating trace sites in Trace impls")
+
+
+@RULES.rule("R9.16", "a pattern given for one kind lands in that kind's regex set and is written back under that kind's flag (shared with C13 R13.5)",
+            floor=10, configs=("cli",))
+def r9_16(rep):
+    """`Item::is_blocklisted` / root selection read one RegexSet per kind.  The builder setters are eight near-identical blocks of the
+    `options!` table; `blocklist_function` inserting into `blocklisted_items` (seeded change) makes `--blocklist-function stat` drop
+    `struct stat` as well, which `fstat(int, struct stat *)` — allowlisted — needs.  The instances of R13.5 for the allowlist /
+    blocklist fields: what the setter reached through `--<kind flag>` stores is what `as_args` of that same field writes."""
+    from engine import KeyFilter
+    import c13
+    c13.r13_5(KeyFilter(rep, lambda k: "allowlisted_" in k or "blocklisted_" in k))
